@@ -518,9 +518,9 @@ theorem borderRadius_scoped : ∀ (n va vb next : Nat), va < next → vb < next 
     obtain ⟨r1, r2⟩ := ih next vb (borderRadius n va next (next + 1)).2 (by omega) (by omega)
     simp only [borderRadius, wellScoped, nVerts, wellScoped_append, nVerts_append, Bool.and_eq_true,
       decide_eq_true_eq]
-    rw [l2] at r1 r2
-    refine ⟨⟨⟨⟨by omega, by omega⟩, by omega⟩, l1, r1⟩, ?_⟩
-    rw [r2]; omega
+    refine ⟨⟨⟨⟨by omega, by omega⟩, by omega⟩, l1, ?_⟩, ?_⟩
+    · rw [← l2]; exact r1
+    · rw [r2, l2]; omega
 
 theorem circleQuadrants_scoped (n : Nat) : ∀ (q next : Nat), 4 ≤ next →
     wellScoped next (circleQuadrants n q next).1 = true ∧
@@ -534,7 +534,6 @@ theorem circleQuadrants_scoped (n : Nat) : ∀ (q next : Nat), 4 ≤ next →
     obtain ⟨x1, x2⟩ := borderRadius_scoped n (3 - q) ((3 - q + 1) % 4) next (by omega) (by omega)
     obtain ⟨y1, y2⟩ := ih (borderRadius n (3 - q) ((3 - q + 1) % 4) next).2 (by omega)
     simp only [circleQuadrants, wellScoped_append, nVerts_append, Bool.and_eq_true]
-    rw [x2] at y1 y2
-    exact ⟨⟨x1, y1⟩, by rw [y2]; omega⟩
+    exact ⟨⟨x1, by rw [← x2]; exact y1⟩, by rw [y2, x2]; omega⟩
 
 end Lyon.C04
